@@ -244,6 +244,22 @@ func raceChild(args []string) {
 	wg.Wait()
 	swg.Wait()
 	fm.WaitIdle()
+	// WaitIdle only covers the fraction being written; older ones may still have index tasks queued (their sealer waits
+	// for them).  Quiescent = every acknowledged document is counted in some fraction's Info.
+	deadline := time.Now().Add(60 * time.Second)
+	for time.Now().Before(deadline) {
+		total := 0
+		for _, f := range fm.GetAllFracs() {
+			total += int(f.Info().DocsTotal)
+		}
+		mu.Lock()
+		want := len(acked)
+		mu.Unlock()
+		if total >= want {
+			break
+		}
+		time.Sleep(5 * time.Millisecond)
+	}
 	rng := vh.NewRNG(*seed)
 	for i := 0; i < 3*len(qs); i++ { // while the last seals are still running, and after
 		check(rng, true)
